@@ -1032,3 +1032,116 @@ def _gen_neox_assignment(rng, model):
             dist.new_group = orig
     kw = dict(local_rank=r, topology=topo, data_parallel_group=dpg, model_parallel_group=mpg)
     return Case(call, dict(self=obj, work=work, **kw), [obj, work], kw, note=f'pp={pp} dp={dp} mp={mp} rank={r}')
+
+
+# ----------------------------------------------------------------------------- layer-level operations (single process)
+def _layer_in_state(rng, method=None):
+    """A real layer taken out of a preconditioner after a random number of iterations, optionally with fresh
+    accumulated batches (forward/backward done, step not yet called)."""
+    p = trained_precond(rng, compute_method=method or rng.choice(['eigen', 'inverse']))
+    model, x = p._vp_model, p._vp_x
+    if rng.random() < 0.7:
+        model.zero_grad()
+        model(x).sum().backward()
+    name, layer = rng.choice(list(p._layers.values()))
+    return p, name, layer
+
+
+def _layer_gen(cls_key, fname, args=None, state=None, variant=None):
+    key = f'{cls_key}.{fname}'
+
+    @gen(key)
+    def g(rng, model):
+        import importlib
+        mod, cname = cls_key.split(':')
+        cls = getattr(importlib.import_module(mod), cname)
+        method = {'KFACInverseLayer': 'inverse', 'KFACEigenLayer': 'eigen'}.get(cname, variant)
+        p, name, layer = _layer_in_state(rng, method)
+        if state:
+            state(rng, p, layer)
+        a = args(rng, p, layer) if args else {}
+        fn = getattr(cls, fname)
+        params = dict(self=layer, **a)
+        return Case(fn, params, [layer], a, note=f'layer {name} after {p.steps} steps')
+    return g
+
+
+def _drop_second_order(rng, p, layer):
+    if rng.random() < 0.15:
+        for f in ('_a_inv', '_g_inv', '_qa', '_qg', '_da', '_dg', '_dgda'):
+            if hasattr(layer, f) and rng.random() < 0.5:
+                setattr(layer, f, None)
+
+
+def _drop_factor(rng, p, layer):
+    if rng.random() < 0.15:
+        layer._a_factor = None
+    if rng.random() < 0.1:
+        layer._g_factor = None
+
+
+_LB = 'kfac.layers.base:KFACBaseLayer'
+_LI = 'kfac.layers.inverse:KFACInverseLayer'
+_LE = 'kfac.layers.eigen:KFACEigenLayer'
+_damp = lambda rng, p, l: {'damping': rng.choice([0.001, 0.01, 0.5])}      # noqa: E731
+_alpha = lambda rng, p, l: {'alpha': rng.choice([0.0, 0.5, 0.95, 1.0])}    # noqa: E731
+for _k in (_LI, _LE):
+    _layer_gen(_k, 'compute_a_inv', _damp, _drop_factor)
+    _layer_gen(_k, 'compute_g_inv', _damp, _drop_factor)
+    _layer_gen(_k, 'preconditioned_grad', _damp, _drop_second_order)
+    _layer_gen(_k, 'memory_usage')
+_layer_gen(_LB, 'update_a_factor', _alpha)
+_layer_gen(_LB, 'update_g_factor', _alpha)
+_layer_gen(_LB, 'reset_batch')
+_layer_gen(_LB, 'state_dict')
+_layer_gen(_LB, 'memory_usage')
+_layer_gen(_LB, 'reduce_a_factor', lambda rng, p, l: {'group': None}, _drop_factor)
+_layer_gen(_LB, 'reduce_g_factor', lambda rng, p, l: {'group': None}, _drop_factor)
+
+
+def _with_grad(rng, p, layer):
+    if rng.random() < 0.85:
+        layer.preconditioned_grad(damping=0.01) if layer.a_factor is not None and getattr(layer, 'qa', getattr(layer, 'a_inv', None)) is not None else None
+
+
+_layer_gen(_LB, 'update_grad', lambda rng, p, l: {'scale': rng.choice([None, 0.5, 1.0, 0.123])}, _with_grad)
+
+
+@gen(f'{_LB}.save_layer_input')
+def _gen_save_input(rng, model):
+    import torch
+    from kfac.layers.base import KFACBaseLayer
+    p, name, layer = _layer_in_state(rng)
+    m = layer.module.module
+    x = torch.randn(rng.randint(1, 4), *( (m.in_features,) if hasattr(m, 'in_features') else (m.in_channels, 5, 5)))
+    return Case(KFACBaseLayer.save_layer_input, {'self': layer, 'input_': [x]}, [layer, [x]], {}, note=f'layer {name}')
+
+
+@gen(f'{_LB}.save_layer_grad_output')
+def _gen_save_grad_output(rng, model):
+    import torch
+    from kfac.layers.base import KFACBaseLayer
+    p, name, layer = _layer_in_state(rng)
+    m = layer.module.module
+    g = torch.randn(rng.randint(1, 4), *((m.out_features,) if hasattr(m, 'out_features') else (m.out_channels, 3, 3)))
+    if rng.random() < 0.3:
+        sc = rng.choice([2.0, 1024.0])
+        layer.grad_scaler = lambda: sc
+    return Case(KFACBaseLayer.save_layer_grad_output, {'self': layer, 'grad_output': [g]}, [layer, [g]], {}, note=f'layer {name}')
+
+
+def _gen_step(variant):
+    key = f'kfac.base_preconditioner:BaseKFACPreconditioner.step#{variant}'
+
+    @gen(key)
+    def g(rng, model):
+        from kfac.base_preconditioner import BaseKFACPreconditioner
+        p = trained_precond(rng, compute_method=variant)
+        p._vp_model.zero_grad()
+        p._vp_model(p._vp_x).sum().backward()
+        return Case(BaseKFACPreconditioner.step, {'self': p}, [p], {}, note=f'after {p.steps} steps, update_factors_in_hook={p._update_factors_in_hook}')
+    return g
+
+
+_gen_step('inverse')
+_gen_step('eigen')
